@@ -240,6 +240,36 @@ func (*BytecodeCompiler).registerCatch
   ensures prefix: forall k int :: 0 <= k && k < old(len(c.bytecode.CatchEntries)) ==> elem(c.bytecode.CatchEntries, k) == old(elem(c.bytecode.CatchEntries, k))
   ensures code: c.bytecode == old(c.bytecode) && c.bytecode.Instructions == old(c.bytecode.Instructions)
 
+// ---- the locals prologue -----------------------------------------------------------------
+// prepLocals puts PREP_LOCALS8 n / PREP_LOCALS16 hi lo in front of the finished function.  Every
+// offset recorded so far moves by exactly the length of that prologue: the old bytes, the catch
+// table (ranges and handler addresses) and the line table (whose first block grows), so that
+// what pointed at an instruction boundary still does.
+spec fn plCount(c *BytecodeCompiler) int = c.maxLocalIndex + 1 - c.predefinedLocals
+spec fn plLen(c *BytecodeCompiler) int = ite(plCount(c) == 0, 0, ite(c.maxLocalIndex >= 255, 3, 2))
+spec fn distinctCatch(c *BytecodeCompiler) bool = (forall k int :: 0 <= k && k < len(c.bytecode.CatchEntries) ==> elem(c.bytecode.CatchEntries, k) != nil) && (forall j int, k int :: 0 <= j && j < k && k < len(c.bytecode.CatchEntries) ==> elem(c.bytecode.CatchEntries, j) != elem(c.bytecode.CatchEntries, k))
+
+func (*BytecodeCompiler).prepLocals
+  props C29 C32 C14
+  nosafety
+  requires wfC(c) && distinctCatch(c)
+  // the recorded offsets lie inside the function (so shifting them cannot overflow)
+  requires inrange: forall k int :: 0 <= k && k < len(c.bytecode.CatchEntries) ==> 0 <= elem(c.bytecode.CatchEntries, k).From && elem(c.bytecode.CatchEntries, k).From <= clen(c) && 0 <= elem(c.bytecode.CatchEntries, k).To && elem(c.bytecode.CatchEntries, k).To <= clen(c) && 0 <= elem(c.bytecode.CatchEntries, k).JumpAddress && elem(c.bytecode.CatchEntries, k).JumpAddress <= clen(c)
+  requires 0 <= c.predefinedLocals && -1 <= c.maxLocalIndex && c.maxLocalIndex < 65535 && c.predefinedLocals <= c.maxLocalIndex + 1
+  ensures bytes: clen(c) == old(clen(c)) + old(plLen(c)) && c.bytecode == old(c.bytecode) && (old(plLen(c)) == 2 ==> ci(c, 0) == bytecode.PREP_LOCALS8 && ci(c, 1) == old(plCount(c))) && (old(plLen(c)) == 3 ==> ci(c, 0) == bytecode.PREP_LOCALS16 && be16(c, 1) == old(plCount(c))) && (forall k int :: 0 <= k && k < old(clen(c)) ==> ci(c, old(plLen(c)) + k) == old(ci(c, k)))
+  ensures catch: c.bytecode.CatchEntries == old(c.bytecode.CatchEntries) && (forall k int :: 0 <= k && k < len(c.bytecode.CatchEntries) ==> elem(c.bytecode.CatchEntries, k) == old(elem(c.bytecode.CatchEntries, k))) && (forall k int :: 0 <= k && k < len(c.bytecode.CatchEntries) ==> elem(c.bytecode.CatchEntries, k).From == old(elem(c.bytecode.CatchEntries, k).From) + old(plLen(c)) && elem(c.bytecode.CatchEntries, k).To == old(elem(c.bytecode.CatchEntries, k).To) + old(plLen(c)) && elem(c.bytecode.CatchEntries, k).JumpAddress == old(elem(c.bytecode.CatchEntries, k).JumpAddress) + old(plLen(c)) && elem(c.bytecode.CatchEntries, k).Finally == old(elem(c.bytecode.CatchEntries, k).Finally))
+  loop 1
+    invariant bytes: len(newInstructions) == old(plLen(c)) && clen(c) == old(clen(c)) + old(plLen(c)) && c.bytecode == old(c.bytecode) && (old(plLen(c)) == 2 ==> ci(c, 0) == bytecode.PREP_LOCALS8 && ci(c, 1) == old(plCount(c))) && (old(plLen(c)) == 3 ==> ci(c, 0) == bytecode.PREP_LOCALS16 && be16(c, 1) == old(plCount(c))) && (forall k int :: 0 <= k && k < old(clen(c)) ==> ci(c, old(plLen(c)) + k) == old(ci(c, k)))
+    invariant same: c.bytecode.CatchEntries == old(c.bytecode.CatchEntries) && (forall k int :: 0 <= k && k < len(c.bytecode.CatchEntries) ==> elem(c.bytecode.CatchEntries, k) == old(elem(c.bytecode.CatchEntries, k)))
+    invariant done: forall k int :: 0 <= k && k < range_idx ==> elem(c.bytecode.CatchEntries, k).From == old(elem(c.bytecode.CatchEntries, k).From) + old(plLen(c)) && elem(c.bytecode.CatchEntries, k).To == old(elem(c.bytecode.CatchEntries, k).To) + old(plLen(c)) && elem(c.bytecode.CatchEntries, k).JumpAddress == old(elem(c.bytecode.CatchEntries, k).JumpAddress) + old(plLen(c)) && elem(c.bytecode.CatchEntries, k).Finally == old(elem(c.bytecode.CatchEntries, k).Finally)
+    invariant todo: forall k int :: range_idx <= k && k < len(c.bytecode.CatchEntries) ==> elem(c.bytecode.CatchEntries, k).From == old(elem(c.bytecode.CatchEntries, k).From) && elem(c.bytecode.CatchEntries, k).To == old(elem(c.bytecode.CatchEntries, k).To) && elem(c.bytecode.CatchEntries, k).JumpAddress == old(elem(c.bytecode.CatchEntries, k).JumpAddress) && elem(c.bytecode.CatchEntries, k).Finally == old(elem(c.bytecode.CatchEntries, k).Finally)
+    hint apart: forall k int :: 0 <= k && k < len(c.bytecode.CatchEntries) && k != range_idx ==> elem(c.bytecode.CatchEntries, k) != elem(c.bytecode.CatchEntries, range_idx)
+    decreases len(c.bytecode.CatchEntries) - range_idx
+  loop 2
+    invariant bytes: clen(c) == old(clen(c)) + old(plLen(c)) && c.bytecode == old(c.bytecode) && (old(plLen(c)) == 2 ==> ci(c, 0) == bytecode.PREP_LOCALS8 && ci(c, 1) == old(plCount(c))) && (old(plLen(c)) == 3 ==> ci(c, 0) == bytecode.PREP_LOCALS16 && be16(c, 1) == old(plCount(c))) && (forall k int :: 0 <= k && k < old(clen(c)) ==> ci(c, old(plLen(c)) + k) == old(ci(c, k)))
+    invariant catch: c.bytecode.CatchEntries == old(c.bytecode.CatchEntries) && (forall k int :: 0 <= k && k < len(c.bytecode.CatchEntries) ==> elem(c.bytecode.CatchEntries, k) == old(elem(c.bytecode.CatchEntries, k))) && (forall k int :: 0 <= k && k < len(c.bytecode.CatchEntries) ==> elem(c.bytecode.CatchEntries, k).From == old(elem(c.bytecode.CatchEntries, k).From) + old(plLen(c)) && elem(c.bytecode.CatchEntries, k).To == old(elem(c.bytecode.CatchEntries, k).To) + old(plLen(c)) && elem(c.bytecode.CatchEntries, k).JumpAddress == old(elem(c.bytecode.CatchEntries, k).JumpAddress) + old(plLen(c)) && elem(c.bytecode.CatchEntries, k).Finally == old(elem(c.bytecode.CatchEntries, k).Finally))
+    decreases len(c.offsetValueIds) - range_idx
+
 func (*BytecodeCompiler).emitInstantiate
   props C29 C32
   requires wfC(c) && location != nil && location.Span != nil && location.StartPos != nil && args >= 0
